@@ -1,6 +1,6 @@
 SPECIFICATION Spec
-CONSTANTS Threads <- T  Nexts <- N  Scheds <- S  Scenarios <- Scn
-INVARIANTS NoAssertion EachSetToAtMostOneNext DonePermanent InnerConsistent NoStrandedNext NothingQueuedAtEnd AllCompleteAtEnd
+CONSTANTS Threads <- T  Nexts <- N  Scheds <- S  Scenarios <- Scn  Variant = "ok"
+INVARIANTS NoAssertion EachSetToAtMostOneNext DonePermanent InnerConsistentWhenFree DoneOnlyAfterDoneRequest NoStrandedNext NothingQueuedAtEnd MutexFreeAtEnd AllCompleteAtEnd
 VIEW View
 ACTION_CONSTRAINT EdgeLog
 CHECK_DEADLOCK TRUE
